@@ -435,6 +435,8 @@ def make_hist_machine():
             if self._vf["st"]["target"] is None and time.time() > self._vf["t_end"]:
                 self._vf["stats"].budget_hit = True
                 self._skip = True
+                # end the search here: a machine that skips its steps has no consistent state for the rules to draw against
+                raise _Stop()
 
         def step(self, name, **args):
             vf = self._vf
